@@ -1,7 +1,9 @@
 mod core;
+mod gval;
 mod known;
 mod norm;
 mod props;
+mod pyoracle;
 mod reflex;
 mod runner;
 mod tape;
@@ -13,6 +15,7 @@ use runner::{Factory, RunConfig};
 fn factory_for(id: &str) -> Option<(&'static str, Factory)> {
     Some(match id {
         "C02" => ("C02", |t| Box::new(props::c02::C02::new(t)) as Box<dyn Property>),
+        "C03" => ("C03", |t| Box::new(props::c03::C03::new(t)) as Box<dyn Property>),
         "C11" => ("C11", |t| Box::new(props::c11::C11::new(t)) as Box<dyn Property>),
         _ => return None,
     })
